@@ -89,6 +89,8 @@ def ops : List (String × (Json → Json)) :=
   [("composeinfo_dumps", fun a => wire (exceptPy pstr (dumps (toCI (get a "spec"))))),
    ("composeinfo_serialize", fun a => wire (exceptPy (fun x => x) (serialize (toCI (get a "spec"))))),
    ("composeinfo_loads", fun a => wire (exceptPy ofCI (loadsDoc (toPy (get a "doc"))))),
+   -- `held.loads(text)`: the document is loaded into an object that already holds `held`
+   ("composeinfo_load_into", fun a => wire (exceptPy ofCI (loadInto (toCI (get a "held")) (toPy (get a "doc"))))),
    ("composeinfo_norm", fun a => wire (ofCI (toCI (get a "spec")).norm)),
    -- loads (on the parsed text supplied by the harness) and dumps again
    ("composeinfo_redump", fun a =>
